@@ -17,6 +17,7 @@ import (
 const witnessEnv = "C36_WITNESS"
 
 var witnessQueries = []string{
+	"SHOW COLLATION LIKE 'utf8mb4_0900%'",
 	"SELECT table_name FROM information_schema.tables WHERE table_schema = 'd'",
 	"SELECT routine_name FROM information_schema.routines WHERE routine_schema = 'd'",
 	"SELECT index_name FROM information_schema.statistics WHERE table_schema = 'd'",
@@ -49,16 +50,16 @@ func TestC36Witness(t *testing.T) {
 	wg.Wait()
 }
 
-// TestC36Known re-confirms the witness of the listed finding in a child process and checks
-// that the race report it produces matches the finding's signature: both conflicting accesses
-// are the unsynchronised field writes/reads of a shared information_schema table object
-// (AssignCatalog / AssignProcedures / the catalog read in PartitionRows).
+// TestC36Known runs the witness of C36-infoschema-shared-table in a child process (the race
+// detector halts the process). Finding listed: the race report must match the finding's
+// signature - both conflicting accesses are the unsynchronised field writes/reads of a shared
+// information_schema table object (AssignCatalog / AssignProcedures / the catalog read in
+// PartitionRows) - and counts as a known hit; a clean child is reported as stale. Finding not
+// listed (e.g. after a fix): the witness must run without any race report.
 func TestC36Known(t *testing.T) {
 	st := stats.New("C36", "known")
 	defer st.Flush()
-	if !kf.Listed(knownInfoSchema) {
-		t.Skip("finding not listed: the main check still generates the region and reports the race itself")
-	}
+	st.Eval()
 	cmd := exec.Command(os.Args[0], "-test.run", "^TestC36Witness$", "-test.v")
 	cmd.Env = append(os.Environ(), witnessEnv+"=1", "GORACE=halt_on_error=1 exitcode=66", "VERIF_STATS_OUT=")
 	out, err := cmd.CombinedOutput()
@@ -71,15 +72,27 @@ func TestC36Known(t *testing.T) {
 	}
 	switch {
 	case code == 0:
-		fmt.Printf("C36 known finding %s: the witness no longer produces a race report (fixed, or binary built without -race)\n", knownInfoSchema)
-	case code == 66 && strings.Contains(txt, "WARNING: DATA RACE") && matchesInfoSchemaSignature(txt):
-		st.Eval()
-		if !kf.Suppress(st, knownInfoSchema) {
-			t.Fatalf("unlisted: %s", txt)
+		st.Class("witness-clean")
+		if kf.Listed(knownInfoSchema) {
+			t.Logf("STALE known finding %s: the witness no longer produces a race report (fixed, or binary built without -race)", knownInfoSchema)
+			fmt.Printf("C36 known finding %s is stale: the witness no longer produces a race report\n", knownInfoSchema)
 		}
+	case code == 66 && strings.Contains(txt, "WARNING: DATA RACE") && matchesInfoSchemaSignature(txt):
+		st.Class("witness-race")
+		if !kf.Suppress(st, knownInfoSchema) {
+			t.Fatalf("data race between two sessions that read information_schema tables concurrently (proposed id %s):\n%s", knownInfoSchema, clip(txt))
+		}
+		t.Logf("KNOWN %s: witness still races", knownInfoSchema)
 	default:
-		t.Fatalf("the witness of %s failed in a way that does not match its signature (exit code %d):\n%s", knownInfoSchema, code, txt)
+		t.Fatalf("the witness of %s failed in a way that does not match its signature (exit code %d):\n%s", knownInfoSchema, code, clip(txt))
 	}
+}
+
+func clip(s string) string {
+	if len(s) > 6000 {
+		return s[:6000] + "\n..."
+	}
+	return s
 }
 
 // matchesInfoSchemaSignature: the first two access stacks of the report have their top frame
